@@ -1,2 +1,41 @@
-From Cmr Require Import Base Det EquiModel.
-Theorem placeholder_C16 : True. Proof. exact I. Qed.
+(* Properties_C16.v — C16: equimodular / unimodular verdicts follow doc/equimodular.md.
+   Statements closed by `exact`; proofs in EquiProofs.v. *)
+From Cmr Require Import Base Det EquiModel EquiProofs.
+Local Open Scope Z_scope.
+
+(* the executable oracle is the documented definition: k is reported for M iff for some column basis B the gcd of the
+   r x r minors of M_B is k (and positive: the columns are independent) and M = M_B X for a totally unimodular X *)
+Theorem C16_oracle_is_definition : forall m n M k,
+  In k (equimod_all m n M) <-> Equimodular m n M k.
+Proof. exact equimod_all_spec'. Qed.
+Print Assumptions C16_oracle_is_definition.
+
+(* strong variants additionally require the same of the transpose, with the same k *)
+Theorem C16_strong_is_definition : forall strong m n M k,
+  equi_yes strong m n M k = true <->
+  Equimodular m n M k /\ (strong = true -> Equimodular n m (transpose m n M) k).
+Proof. exact equi_yes_spec. Qed.
+Print Assumptions C16_strong_is_definition.
+
+(* whenever the extracted judge accepts a record of CMRequimodularTest / TestStrong / CMRunimodularTest / TestStrong:
+   either CMR_ERROR_OVERFLOW on a matrix with an entry of absolute value >= 1000, or CMR_OKAY with a written verdict
+   that is the definition's (for the requested k, k = 1 for the unimodular variants, or for some k if none is
+   requested), and a reported k for which the definition holds *)
+Theorem C16_judge_sound : forall rec variant kin m n M rc v kout rest,
+  equimod_input rec = Some ((variant, kin, (m, n, M), rc, v, kout), rest) ->
+  judge_equimod rec = 0 ->
+  (0 <= variant <= 3 /\ 0 <= kin /\ wf_mat m n M = true) /\
+  ((rc = 5 /\ 1000 <= max_abs M) \/
+   (rc = 0 /\ (v = 0 \/ v = 1) /\
+    (variant_kreq variant kin <> 0 ->
+       (v = 1 <-> equi_yes (variant_strong variant) m n M (variant_kreq variant kin) = true)) /\
+    (variant_kreq variant kin = 0 -> (v = 1 <-> equi_any (variant_strong variant) m n M <> [])) /\
+    (v = 1 -> variant < 2 -> equi_yes (variant_strong variant) m n M kout = true))).
+Proof. exact judge_equimod_sound. Qed.
+Print Assumptions C16_judge_sound.
+
+(* every nonsingular square matrix is equimodular (B = all columns, X = I): the 2x2 instance the implementation misses *)
+Example C16_nonsingular_example : Equimodular 2 2 [[-2; -2]; [-2; 1]] 6.
+Proof. exact ex_equimodular_6. Qed.
+Example C16_not_equimodular_example : forall k, ~ Equimodular 2 2 [[2; 4]; [1; 2]] k.
+Proof. exact ex_not_equimodular. Qed.
